@@ -238,3 +238,111 @@ pub open spec fn made_for(g: Grapheme, text: Seq<char>, c: RegExpConfig) -> bool
                   'convert_to_char_classes / convert_repetitions / is_char_class_feature_enabled are used through the clauses that units classes / repeats / gates verify',
                   '`.iter().map(closure).collect_vec()` applies the closure to every element in order (vx_map_clusters); the closure keeps its text and is checked against its contract']
     return b
+
+
+# ---------------------------------------------------------------------------------------------------------------------------------------
+def build_cluster_from(repo, spec_dir, canary=False):
+    """unit `clusterfrom` (C16-S1, C06): GraphemeCluster::from as a whole function -- every grapheme of the cluster is plain (one element, no quantifier, nothing
+    nested) and carries the three settings; the segmentation itself (unicode-segmentation) and the mark/other test are opaque."""
+    b = Builder('clusterfrom', repo, canary)
+    b.emit('use vstd::prelude::*;\nverus! {')
+    b.type_item('config.rs', r'^pub struct RegExpConfig \{')
+    b.type_item('grapheme.rs', r'^pub struct Grapheme \{')
+    b.type_item('cluster.rs', r"^pub struct GraphemeCluster<'a> \{")
+    b.emit(open(spec_dir + '/splice.rs').read())
+    b.emit(open(spec_dir + '/repeats.rs').read())
+    b.emit('''impl Grapheme {
+    // verified in units repeats / rep against these clauses (grapheme_from.one_symbol_once, grapheme_from.flags)
+    #[verifier::external_body] pub fn from(s: &str, is_capturing_group_enabled: bool, is_output_colorized: bool, is_verbose_mode_enabled: bool) -> (r: Self)
+        ensures plain(r) && r.chars@[0]@ == s@, r.is_capturing_group_enabled == is_capturing_group_enabled && r.is_output_colorized == is_output_colorized && r.is_verbose_mode_enabled == is_verbose_mode_enabled { unimplemented!() }
+}
+pub open spec fn made_for(g: Grapheme, text: Seq<char>, c: RegExpConfig) -> bool {
+    plain(g) && g.chars@[0]@ == text && g.is_capturing_group_enabled == c.is_capturing_group_enabled && g.is_output_colorized == c.is_output_colorized && g.is_verbose_mode_enabled == c.is_verbose_mode_enabled
+}
+#[verifier::external_body] pub fn vx_char_to_string(c: char) -> (r: String) ensures r@ == seq![c] { unimplemented!() }
+#[verifier::external_body] pub fn vx_map_chars<F: Fn(char) -> Grapheme>(s: &str, f: F) -> (r: Vec<Grapheme>)
+    requires forall|c: char| f.requires((c,))
+    ensures r@.len() == s@.len(), forall|i: int| 0 <= i < s@.len() ==> f.ensures((s@[i],), #[trigger] r@[i]) { unimplemented!() }''')
+    def seg_pre(t, log, w):
+        m = re.search(r'\bit\.chars\(\)\s*\.map\(', t)
+        if not m: raise X.LostAnchor('cluster.rs::GraphemeCluster::from: it.chars().map(..)')
+        po = m.end() - 1; pc = L.match_close(t, po)
+        tail = re.match(r'\s*\.collect_vec\(\)', t[pc + 1:])
+        mm = re.match(r'\|(\w+)\|\s*', t[po + 1:pc].strip())
+        if not (tail and mm): raise X.LostAnchor('cluster.rs::GraphemeCluster::from: .map(|c| ..).collect_vec()')
+        c = mm.group(1); clo = t[po + 1:pc].strip()
+        clo = '|%s: char| -> (vx_g: Grapheme) ensures /*#cluster_from.one_grapheme_per_code_point_with_the_settings#*/ made_for(vx_g, seq![%s], *config) ' % (c, c) + clo[mm.end():]
+        log.add('R35', w, 'it.chars().map(closure).collect_vec()', 'vx_map_chars(it, closure): the closure applied to every code point in order; the closure keeps its text and gets a checked contract')
+        return t[:m.start()] + 'vx_map_chars(it, %s)' % clo + t[pc + 1 + tail.end():]
+    # ---- GraphemeCluster::from as a whole function: segmentation (opaque) + flat_map(closure) + collect; the closure keeps its text and gets a checked contract
+    b.emit('''pub open spec fn all_made_for(v: Seq<Grapheme>, c: RegExpConfig) -> bool { forall|k: int| 0 <= k < v.len() ==> plain(#[trigger] v[k]) && v[k].is_capturing_group_enabled == c.is_capturing_group_enabled && v[k].is_output_colorized == c.is_output_colorized && v[k].is_verbose_mode_enabled == c.is_verbose_mode_enabled }
+pub open spec fn concat_parts(parts: Seq<Vec<Grapheme>>, n: int) -> Seq<Grapheme> decreases n { if n <= 0 { Seq::empty() } else { concat_parts(parts, n - 1) + parts[n - 1]@ } }
+pub proof fn lemma_concat_all_made_for(parts: Seq<Vec<Grapheme>>, n: int, c: RegExpConfig)
+    requires 0 <= n <= parts.len(), forall|i: int| 0 <= i < parts.len() ==> all_made_for((#[trigger] parts[i])@, c)
+    ensures all_made_for(concat_parts(parts, n), c)
+    decreases n
+{
+    if n > 0 {
+        lemma_concat_all_made_for(parts, n - 1, c);
+        let a = concat_parts(parts, n - 1); let z = parts[n - 1]@;
+        assert(all_made_for(z, c));
+        assert forall|k: int| 0 <= k < (a + z).len() implies plain(#[trigger] (a + z)[k]) && (a + z)[k].is_capturing_group_enabled == c.is_capturing_group_enabled && (a + z)[k].is_output_colorized == c.is_output_colorized && (a + z)[k].is_verbose_mode_enabled == c.is_verbose_mode_enabled by {
+            if k < a.len() { assert((a + z)[k] == a[k]); } else { assert((a + z)[k] == z[k - a.len()]); }
+        }
+    }
+}
+// unicode-segmentation: the extended grapheme clusters of s, in order (opaque)
+#[verifier::external_body] pub fn vx_grapheme_segments<'s>(s: &'s str) -> (r: Vec<&'s str>) { unimplemented!() }
+// `.flat_map(closure).collect_vec()`: the closure's results for every segment, concatenated in order
+#[verifier::external_body] pub fn vx_flat_map_collect<'s, F: Fn(&'s str) -> Vec<Grapheme>>(v: &Vec<&'s str>, f: F) -> (r: Vec<Grapheme>)
+    requires forall|i: int| 0 <= i < v@.len() ==> f.requires((#[trigger] v@[i],))
+    ensures exists|parts: Seq<Vec<Grapheme>>| parts.len() == v@.len() && (forall|i: int| 0 <= i < v@.len() ==> f.ensures((v@[i],), #[trigger] parts[i])) && r@ == #[trigger] concat_parts(parts, parts.len() as int) { unimplemented!() }
+// `it.chars().any(|c| { category of c is a mark or "other" })`: the closure is verified in unit split (cluster_split.every_mark_and_other_category_splits); its answer is opaque here
+pub uninterp spec fn has_mark_or_other(s: Seq<char>) -> bool;
+#[verifier::external_body] pub fn vx_has_mark_or_other(s: &str) -> (r: bool) ensures r == has_mark_or_other(s@) { unimplemented!() }
+#[verifier::external_body] pub fn vx_char_count(s: &str) -> (r: usize) ensures r == s@.len() { unimplemented!() }
+#[verifier::external_body] pub fn vx_str_contains_char(s: &str, c: char) -> (r: bool) ensures r == s@.contains(c) { unimplemented!() }''')
+    def from_pre(t, log, w):
+        t = seg_pre(t, log, w)
+        m = re.search(r'UnicodeSegmentation::graphemes\(s, true\)\s*\.flat_map\(', t)
+        if not m: raise X.LostAnchor('cluster.rs::GraphemeCluster::from: UnicodeSegmentation::graphemes(s, true).flat_map(..)')
+        po = m.end() - 1; pc = L.match_close(t, po)
+        tail = re.match(r'\s*\.collect_vec\(\)', t[pc + 1:])
+        mm = re.match(r'\|(\w+)\|\s*', t[po + 1:pc].strip())
+        if not (tail and mm): raise X.LostAnchor('cluster.rs::GraphemeCluster::from: .flat_map(|it| ..).collect_vec()')
+        it = mm.group(1); clo = t[po + 1:pc].strip()
+        clo = '|%s: &str| -> (vx_p: Vec<Grapheme>) ensures /*#cluster_from.every_segment_becomes_plain_graphemes_with_the_settings#*/ all_made_for(vx_p@, *config) ' % it + clo[mm.end():]
+        log.add('R35', w, 'UnicodeSegmentation::graphemes(s, true).flat_map(closure).collect_vec()', 'vx_flat_map_collect(&vx_grapheme_segments(s), closure): the closure applied to every segment in order, results concatenated; the closure keeps its text and gets a checked contract')
+        # R29: the segments, the closure and the collected graphemes get names (ghost code refers to them); the struct literal then uses the name
+        k = t.rfind('Self {', 0, m.start())
+        if k < 0: raise X.LostAnchor('cluster.rs::GraphemeCluster::from: Self { .. }')
+        ls = t.rfind('\n', 0, k) + 1
+        ind = re.match(r'[ \t]*', t[ls:]).group(0)
+        lets = '%slet vx_segs = vx_grapheme_segments(s);\n%slet vx_f = %s;\n%slet vx_gs = vx_flat_map_collect(&vx_segs, vx_f);\n' % (ind, ind, clo, ind)
+        log.add('R29', w, 'Self { graphemes: EXPR, .. }', 'let vx_segs = ..; let vx_f = CLOSURE; let vx_gs = vx_flat_map_collect(&vx_segs, vx_f); Self { graphemes: vx_gs, .. }')
+        t = t[:ls] + lets + t[ls:m.start()] + 'vx_gs' + t[pc + 1 + tail.end():]
+        # the mark/other test: one stand-in for the whole `it.chars().any(|c| {..})` expression (its closure is verified in unit split)
+        m2 = re.search(r'\bit\.chars\(\)\.any\(', t)
+        if not m2: raise X.LostAnchor('cluster.rs::GraphemeCluster::from: it.chars().any(..)')
+        po2 = m2.end() - 1; pc2 = L.match_close(t, po2)
+        log.add('R19', w, 'it.chars().any(closure) [mark / other category]', 'vx_has_mark_or_other(it) (uninterpreted; closure verified in unit split)')
+        t = t[:m2.start()] + 'vx_has_mark_or_other(it)' + t[pc2 + 1:]
+        return t
+    b.emit("impl<'a> GraphemeCluster<'a> {")
+    b.verified_fn('cluster.rs', 'from', within=r"^impl<'a> GraphemeCluster<'a> \{", props=['C07'], fname='GraphemeCluster::from', pre=from_pre,
+                  extra_rules=[('R4', r'&c\.to_string\(\)', '&vx_char_to_string(c)', 'char -> one-char String'),
+                               ('R5', r'\bit\.chars\(\)\.count\(\)', 'vx_char_count(it)', 'chars().count()'),
+                               ('R12', r"\bit\.contains\(('(?:\\.|[^'\\])')\)", r'vx_str_contains_char(it, \1)', 'str::contains(char)')],
+                  clauses=[Clause('cluster_from.every_grapheme_is_plain_and_carries_the_settings', 'all_made_for(r.graphemes@, *config)', ['C16', 'C06', 'C05', 'C13']),
+                           Clause('cluster_from.every_grapheme_is_plain', 'all_plain(r.graphemes@)', ['C16', 'C05', 'C13']),
+                           Clause('cluster_from.keeps_the_settings', 'r.config == config', ['C10', 'C16'])],
+                  loops={98: [('cluster_from.every_segment_becomes_plain_graphemes_with_the_settings', ['C16', 'C06'], 'true')], 99: [('cluster_from.one_grapheme_per_code_point_with_the_settings', ['C16', 'C06'], 'true')]},
+                  blocks=[('Self {', 'before', '''        proof {
+            let parts = choose|parts: Seq<Vec<Grapheme>>| parts.len() == vx_segs@.len() && (forall|i: int| 0 <= i < vx_segs@.len() ==> vx_f.ensures((vx_segs@[i],), #[trigger] parts[i])) && vx_gs@ == #[trigger] concat_parts(parts, parts.len() as int);
+            lemma_concat_all_made_for(parts, parts.len() as int, *config);
+        }''', ('cluster_from.every_grapheme_is_plain_and_carries_the_settings', ['C16', 'C06', 'C05', 'C13']))])
+    b.emit('}')
+    b.emit('} // verus!\nfn main() {}')
+    b.trusted += ['unicode-segmentation is opaque (vx_grapheme_segments: some list of segments); `.flat_map(closure).collect_vec()` concatenates the closure\'s results for every segment in order (vx_flat_map_collect; the closure keeps its text and is checked against its contract); the mark/other test `it.chars().any(..)` is one uninterpreted stand-in (its closure is verified in unit split)',
+                  'Grapheme::from is used through the clauses units repeats / rep verify (compared on every run: vx/crosscheck.py)']
+    return b
